@@ -462,7 +462,13 @@ func (x *Exec) callContract(fr *frame, cs *CallSite, fn *ssa.Function, ct *Contr
 	env := x.calleeEnv(fn, ct, args, &before, &before)
 	for k, rq := range ct.Requires {
 		t := x.evalBool(env, rq.Expr)
-		if fr.top {
+		switch {
+		case fr.top && x.preTaggedOnly && rq.Tag == "":
+			// mode A (a handler walked for one property): a general precondition of the callee
+			// (a length bound, a well-formedness invariant of its input) is not this property's
+			// obligation; it is assumed here and reported as such
+			x.vc.note("assumed at the call in %s: general precondition %d of %s (checked where that function's callers are verified for its own property)", x.eng.fnKey(fr.fn), k+1, x.eng.fnKey(fn))
+		case fr.top:
 			x.vc.oblige(fmt.Sprintf("%s#pre-at-call:%s#%d.%d", x.eng.fnKey(fr.fn), x.eng.fnKey(fn), cs.Ord, k+1), "pre-at-call", r, t, x.eng.pos(cs.Pos))
 		}
 		S.fact(r, t)
